@@ -139,40 +139,55 @@ fn check_on(db: &Db, c: &DCase) -> CaseReport {
             return fail(&format!("result{}:{}", i, sig), why);
         }
     }
-    // descriptions: exactly the phrases (multiset) when everything succeeded,
-    // grouped per result in order; a sub-multiset per failing result
+    // descriptions: in result order; a successful result reports exactly its phrases (as a multiset —
+    // the order inside one expression is the evaluator's), a failed result any sub-multiset of its
+    // phrases (the lookups made before it failed).  A later failure must not take anything away
+    // from an earlier success, so the list must split that way for SOME choice of how many
+    // descriptions each failed result left behind.
     let all_ok = with.results.iter().all(|r| r.is_ok());
-    let mut cursor = 0usize;
-    let mut expected_total = 0usize;
-    for (i, part) in c.parts.iter().enumerate() {
-        expected_total += part.phrases.len();
-        if all_ok {
-            let got: Vec<&Desc> = with.descs.iter().skip(cursor).take(part.phrases.len()).collect();
-            let mut g: Vec<String> = got.iter().map(|d| d.phrase.clone()).collect();
-            let mut w = part.phrases.clone();
-            g.sort();
-            w.sort();
-            if g != w {
-                return fail("descriptions-are-not-the-phrases-used", format!("result {}: described {:?}, phrases used {:?}", i, g, w));
+    let expected_total: usize = c.parts.iter().map(|p| p.phrases.len()).sum();
+    fn is_submultiset(sub: &[String], of: &[String]) -> bool {
+        let mut pool: Vec<&String> = of.iter().collect();
+        sub.iter().all(|x| match pool.iter().position(|p| *p == x) {
+            Some(i) => {
+                pool.remove(i);
+                true
             }
-            cursor += part.phrases.len();
-        }
+            None => false,
+        })
     }
-    if all_ok && with.descs.len() != expected_total {
-        return fail("description-count", format!("{} descriptions for {} phrases", with.descs.len(), expected_total));
-    }
-    if !all_ok {
-        // sub-multiset of all phrases of the query
-        let mut pool: Vec<String> = c.parts.iter().flat_map(|p| p.phrases.iter().cloned()).collect();
-        for d in &with.descs {
-            match pool.iter().position(|p| *p == d.phrase) {
-                Some(i) => {
-                    pool.remove(i);
+    fn split_ok(parts: &[DPart], oks: &[bool], descs: &[String]) -> bool {
+        match parts.split_first() {
+            None => descs.is_empty(),
+            Some((part, rest)) => {
+                if oks[0] {
+                    let k = part.phrases.len();
+                    if descs.len() < k {
+                        return false;
+                    }
+                    let mut g: Vec<String> = descs[..k].to_vec();
+                    let mut w = part.phrases.clone();
+                    g.sort();
+                    w.sort();
+                    g == w && split_ok(rest, &oks[1..], &descs[k..])
+                } else {
+                    (0..=part.phrases.len().min(descs.len())).any(|k| is_submultiset(&descs[..k], &part.phrases) && split_ok(rest, &oks[1..], &descs[k..]))
                 }
-                None => return fail("description-of-an-unused-phrase", format!("{:?}", d.phrase)),
             }
         }
     }
+    let oks: Vec<bool> = with.results.iter().map(|r| r.is_ok()).collect();
+    let described: Vec<String> = with.descs.iter().map(|d| d.phrase.clone()).collect();
+    for d in &described {
+        if !c.parts.iter().any(|p| p.phrases.contains(d)) {
+            return fail("description-of-an-unused-phrase", format!("{:?}", d));
+        }
+    }
+    if !split_ok(&c.parts, &oks, &described) {
+        let sig = if all_ok { "descriptions-are-not-the-phrases-used" } else { "descriptions-of-a-successful-result-missing-or-misplaced" };
+        return fail(sig, format!("described {:?}; per result (ok?, phrases): {:?}", described, c.parts.iter().zip(oks.iter()).map(|(p, o)| (*o, p.phrases.clone())).collect::<Vec<_>>()));
+    }
+    let ok_before_err = oks.iter().position(|o| !*o).map(|e| c.parts[..e].iter().any(|p| !p.phrases.is_empty())).unwrap_or(false);
     // each description carries the constant the phrase returns when asked alone
     for d in &with.descs {
         match ask_alone(db, &d.phrase) {
@@ -193,6 +208,9 @@ fn check_on(db: &Db, c: &DCase) -> CaseReport {
     }
     if !all_ok {
         classes.push("with-error");
+    }
+    if ok_before_err {
+        classes.push("described-success-before-a-failing-result");
     }
     CaseReport::pass(q, c.nontrivial, classes)
 }
@@ -334,23 +352,43 @@ fn expression() -> impl Strategy<Value = Expr> {
     })
 }
 
+/// An expression that fails: a division by the literal zero (of a plain number or of a whole expression).
+fn failing() -> impl Strategy<Value = Expr> {
+    let zero = || Expr::Num(Lit::from_text("0"));
+    prop_oneof![
+        1 => gen::small_lit().prop_map(move |l| Expr::bin(Op::Div, Expr::Num(l), zero())),
+        2 => expression().prop_map(move |e| Expr::bin(Op::Div, Expr::Paren(Box::new(e)), zero())),
+    ]
+}
+
 pub fn exprs() -> impl Strategy<Value = Vec<Expr>> {
-    prop_oneof![5 => expression().prop_map(|e| vec![e]), 1 => prop::collection::vec(expression(), 2..=3)]
+    prop_oneof![
+        5 => expression().prop_map(|e| vec![e]),
+        1 => prop::collection::vec(expression(), 2..=3),
+        // successes followed (or preceded) by a failing expression in the same query
+        1 => (prop::collection::vec(expression(), 1..=2), failing(), any::<bool>()).prop_map(|(mut v, f, last)| {
+            if last {
+                v.push(f);
+            } else {
+                v.insert(0, f);
+            }
+            v
+        }),
+    ]
 }
 
 pub fn run_check(ctx: &Ctx) {
-    ctx.set_rule("expressions mixing literals, quantities and typable fact phrases with + - * /, parentheses and `to` (also 2-3 parenthesised expressions in one query): results with and without descriptions are equal, no description is recorded when disabled, descriptions are exactly the phrases used (multiset, grouped per result; a sub-multiset when a result is an error), each paired with the constant the phrase returns when asked alone, and the value equals the reference evaluation with phrases replaced by those constants; histories: shuffled lists of such queries against one database instance give each query the result it has on a fresh instance; non-trivial = >=2 phrases or a history with a repeated query; distinct by query text");
-    let db = shared_db();
+    ctx.set_rule("expressions mixing literals, quantities and typable fact phrases with + - * /, parentheses and `to` (also 2-3 parenthesised expressions in one query): results with and without descriptions are equal, no description is recorded when disabled, descriptions are exactly the phrases used (multiset, grouped per result; a sub-multiset when a result is an error), each paired with the constant the phrase returns when asked alone, and the value equals the reference evaluation with phrases replaced by those constants; a failing expression among successful ones takes no description away from them; histories: shuffled lists of such queries (plus clusters of phrases sharing a long prefix, and of phrases differing only in letter case or in the case of an inserted and/or/not) against one database instance give each query the result it has on a fresh instance; non-trivial = >=2 phrases or a history with a repeated query; distinct by query text");
     let corpus: Vec<(String, DCase)> = load_corpus("C18");
     let cases: Vec<DCase> = corpus.into_iter().map(|c| c.1).collect();
-    ctx.run_list("corpus", &cases, |c| check_on(db, c), |c| to_json(c));
+    ctx.run_list("corpus", &cases, |c| check_on(shared_db(), c), |c| to_json(c));
     let n = ctx.tier.pick(30_000u64, 600_000);
     ctx.run_gen(
         "expressions",
         exprs,
         n,
         |es| match make_case(es) {
-            Some(c) => check_on(db, &c),
+            Some(c) => check_on(shared_db(), &c),
             None => CaseReport::discard("", "reference-unspecified"),
         },
         |es| make_case(es).map(|c| to_json(&c)).unwrap_or(Value::Null),
@@ -383,6 +421,34 @@ pub fn run_check(ctx: &Ctx) {
         }
         out
     };
+    // clusters of phrases that differ only in letter case or in the case of an inserted and/or/not
+    // (the search engine's query syntax gives AND / OR / NOT a meaning that and / or / not lack):
+    // a lookup cache keyed on a normalised phrase would hand one member the other's constant
+    let mut clusters = clusters;
+    {
+        let p = pool();
+        for i in 0..120u64 {
+            let h = crate::runner::derive_seed(ctx.seed, "C18", "case-cluster", i as usize);
+            let base = &p.all[(h % p.all.len() as u64) as usize].0;
+            let words: Vec<&str> = base.split(' ').collect();
+            let mut members: Vec<String> = Vec::new();
+            if words.len() >= 2 {
+                let at = 1 + ((h >> 20) as usize) % (words.len() - 1);
+                let opw = ["not", "and", "or"][((h >> 40) % 3) as usize];
+                for o in [opw.to_string(), opw.to_uppercase()] {
+                    let mut w: Vec<String> = words.iter().map(|s| s.to_string()).collect();
+                    w.insert(at, o);
+                    members.push(w.join(" "));
+                }
+            }
+            members.push(base.to_uppercase());
+            members.push(base.clone());
+            let picked: Vec<DCase> = members.iter().filter_map(|m| make_case(&[Expr::Fact(m.clone())])).collect();
+            if picked.len() >= 2 {
+                clusters.push(picked);
+            }
+        }
+    }
     ctx.put("confusable_phrase_clusters", json!(clusters.len()));
     std::thread::scope(|s| {
         for shard in 0..ctx.threads {
